@@ -224,7 +224,7 @@ impl Archive {
         let mut blocks = HashSet::new();
         for band_id in band_ids {
             let band = Band::open(&archive, *band_id).await?;
-            let mut iter = band.index().iter_available_hunks().await;
+            let mut iter = band.index().try_iter_available_hunks().await?;
             while let Some(hunk) = iter.next().await {
                 for addr in hunk.into_iter().flat_map(|entry| entry.addrs) {
                     blocks.insert(addr.hash);
